@@ -171,20 +171,23 @@ def copy_static_package(dst_parent):
     return dst
 
 
-def full(files, do_import=True, spelling="absolute", stale_output=False, prior_files=None, earlier_output_files=None):
-    """Stage a spec tree: returns (Staged or None, ok, error, stdout)."""
+def full(files, do_import=True, spelling="absolute", stale_output=False, prior_files=None, earlier_output_files=None, below=None):
+    """Stage a spec tree: returns (Staged or None, ok, error, stdout).
+    below: name of an extra directory level everything is staged under (a checkout cloned into a directory called
+    'eolib', say)."""
     root = scratch("vf-full-")
-    xml_root = os.path.join(root, "xml")
+    base = os.path.join(root, below) if below else root
+    xml_root = os.path.join(base, "xml")
     os.makedirs(xml_root)
     write_tree(xml_root, files)
-    pkg_parent = os.path.join(root, "pkg")
+    pkg_parent = os.path.join(base, "pkg")
     os.makedirs(pkg_parent)
     pkg = copy_static_package(pkg_parent)
     gen_dir = os.path.join(pkg, "protocol", "_generated")
     if earlier_output_files is not None:
         # the output directory still holds what an earlier revision of the specification (same types, some of them
         # in other directories) was generated into
-        prev_root = os.path.join(root, "xml-earlier")
+        prev_root = os.path.join(base, "xml-earlier")
         os.makedirs(prev_root)
         write_tree(prev_root, earlier_output_files)
         run_generator(prev_root, gen_dir)
